@@ -12,6 +12,7 @@ import (
 	"os"
 	"os/exec"
 	"runtime"
+	"strings"
 	"sync"
 	"time"
 )
@@ -216,6 +217,8 @@ func (p *Pool) Map(kind string, tasks [][]byte, onResult func(Result), stop func
 						return
 					}
 				}
+				attempt := 0
+			again:
 				res := Result{Index: idx}
 				if err := writeFrame(w.in, kind, tasks[idx]); err != nil {
 					res.Err = fmt.Errorf("worker write: %w", err)
@@ -245,6 +248,17 @@ func (p *Pool) Map(kind string, tasks [][]byte, onResult func(Result), stop func
 					res.Stderr = w.stderr.String()
 					w.kill()
 					w = nil
+					// A worker that dies (as opposed to one that times out) gets the task again in a fresh process,
+					// twice at most: only a crash that repeats is reported (the Go runtime itself has crashed once in
+					// runtime.Stack under this harness; a crash caused by the task's input repeats).
+					if attempt < 2 && !strings.Contains(res.Err.Error(), "timeout") {
+						attempt++
+						fmt.Fprintf(os.Stderr, "note: worker died on a task (attempt %d), retrying in a fresh worker: %v\n", attempt, res.Err)
+						var err error
+						if w, err = p.spawn(); err == nil {
+							goto again
+						}
+					}
 				} else if p.Recycle > 0 && done%p.Recycle == 0 {
 					w.kill()
 					w = nil
